@@ -5,7 +5,7 @@ it breaks (scratch copy of /repo, removed afterwards); record the verdict in met
 A change that is not caught is re-examined with its own demonstration program on the *current* tree: if the
 demo passes with the change applied, a later `fix:` commit has made the kernel robust against that change (it no
 longer breaks the property) - the verdict is NEUTRALISED, not MISSED."""
-import json, os, shutil, subprocess, sys, tempfile
+import json, os, shutil, signal, subprocess, sys, tempfile
 ROOT = os.path.dirname(os.path.dirname(os.path.abspath(__file__)))
 names = sorted(os.listdir(os.path.join(ROOT, 'seeded')))
 only = sys.argv[1:]
@@ -42,8 +42,20 @@ for n in names:
     d = os.path.join(ROOT, 'seeded', n)
     meta = json.load(open(os.path.join(d, 'meta.json')))
     prop = meta['property']
-    r = subprocess.run([os.path.join(ROOT, 'tools', 'run_seeded.sh'), n, prop], capture_output=True, text=True, timeout=1800)
-    out = r.stdout
+    out = ''
+    for attempt in (1, 2):      # (a change that makes threads deadlock can stall a run: try once more, then give up)
+        proc = subprocess.Popen([os.path.join(ROOT, 'tools', 'run_seeded.sh'), n, prop], stdout=subprocess.PIPE,
+                                stderr=subprocess.DEVNULL, text=True, start_new_session=True)
+        try:
+            out = proc.communicate(timeout=900)[0]
+            break
+        except subprocess.TimeoutExpired:
+            os.killpg(proc.pid, signal.SIGKILL)
+            proc.communicate()
+            for dname in os.listdir('/tmp'):
+                if dname.startswith('usim_mut.'):
+                    shutil.rmtree(os.path.join('/tmp', dname), ignore_errors=True)
+            out = 'timeout'
     caught = 'exit=1' in out and 'VIOLATION' in out
     sigs = sorted({l.split('sig=')[1].split()[0] for l in out.splitlines() if 'sig=' in l})[:6]
     verdict = 'CAUGHT' if caught else 'MISSED'
